@@ -40,3 +40,32 @@ Theorem C17_only_flush_commits :
   ∀ s o, o ≠ Flush → com (fst (sp_step s o)) = com s.
 Proof. exact sp_com_stable. Qed.
 Print Assumptions C17_only_flush_commits.
+
+(** CacheDB: the overlay over a backend that is the specification (= CacheDB over Bolt)
+    returns the specification's results for every operation sequence, flushed or not. *)
+From CV Require Import KV.CacheProofs.
+
+Theorem C17_cachedb_refines_spec :
+  ∀ ops, run_ops (cache_step sp_backend) (cache_init sp_backend sp_init) ops =
+         run_ops sp_step sp_init ops.
+Proof. exact cachedb_refines_spec. Qed.
+Print Assumptions C17_cachedb_refines_spec.
+
+(** The same for CacheDB over MemDB. *)
+Theorem C17_cachedb_over_memdb_refines_spec :
+  ∀ ops, run_ops (cache_step mem_backend) (cache_init mem_backend mem_init) ops =
+         run_ops sp_step sp_init ops.
+Proof. exact cachedb_over_memdb_refines_spec. Qed.
+Print Assumptions C17_cachedb_over_memdb_refines_spec.
+
+(** All four backends (MemDB, CacheDB over MemDB, CacheDB over the specification, and the
+    specification = Bolt) answer every operation sequence identically. *)
+Theorem C17_backends_agree :
+  ∀ ops,
+    run_ops mem_step mem_init ops = run_ops sp_step sp_init ops ∧
+    run_ops (cache_step mem_backend) (cache_init mem_backend mem_init) ops =
+      run_ops sp_step sp_init ops ∧
+    run_ops (cache_step sp_backend) (cache_init sp_backend sp_init) ops =
+      run_ops sp_step sp_init ops.
+Proof. exact backends_agree. Qed.
+Print Assumptions C17_backends_agree.
